@@ -22,7 +22,8 @@ options the library passes) and the arithmetic of `~Nf` (`FPrim`: `truncate(F)`,
 instantiates with the C02 model of the arithmetic functions.
 
 `Cfg.pinned = true` reproduces the pinned `~Nd`/`~ND`/`~NU` on negative integers (the sign is
-treated as a digit: findings C36-1, C36-2); the theorems are about `pinned = false`.
+treated as a digit: findings C36-1, C36-2) and the pinned `~|` after `~w`/`~q` (finding C36-3);
+the theorems are about `pinned = false`.
 
 Imports only `Model/Term`.
 -/
@@ -135,6 +136,7 @@ inductive Err where
   | type (ty : String) (culprit : Term)    -- type_error(ty, culprit)
   | dom (d : String) (culprit : Term)      -- domain_error(d, culprit)
   | eval (e : String)                      -- evaluation_error(e)
+  | uninst (culprit : Term)                -- uninstantiation_error(culprit)
   | fail                                   -- the goal fails
   | unspec                                 -- some error the model does not pin down
   deriving Repr, BEq, Inhabited
@@ -183,7 +185,9 @@ def mustBeChars (t : Term) : R (List Char) :=
     else .ok (xs.filterMap charOf?)
 
 /-- `Arg is Arg0` restricted to what the check generates: integers, the other numbers, `+ - *`
-    on integer-valued subexpressions; an atom or another compound is reported as not evaluable
+    on integer-valued subexpressions. The run-time evaluator walks the term in post-order: the
+    arguments of a compound are evaluated first (left to right, first error wins), then the
+    functor is looked up; an atom or an unknown functor is reported as not evaluable
     (ASSUMPTION: the generator never uses evaluable functors other than `+ - *` here). -/
 def evalArith : Nat → Term → R Term
   | _, .int v => .ok (.int v)
@@ -193,26 +197,29 @@ def evalArith : Nat → Term → R Term
   | _, .atom a => .error (.type "evaluable" (indicator a 0))
   | 0, _ => .error .unspec
   | fuel + 1, .str f args =>
-    match f, args with
-    | "+", [a, b] => bin fuel (· + ·) a b
-    | "-", [a, b] => bin fuel (· - ·) a b
-    | "*", [a, b] => bin fuel (· * ·) a b
-    | "-", [a] =>
-      match evalArith fuel a with
-      | .ok (.int x) => .ok (.int (-x))
-      | .ok _ => .error .unspec
-      | .error e => .error e
-    | _, _ => .error (.type "evaluable" (indicator f args.length))
-where
-  bin (fuel : Nat) (op : Int → Int → Int) (a b : Term) : R Term :=
-    match evalArith fuel a with
+    match evalAll fuel args with
     | .error e => .error e
-    | .ok (.int x) =>
-      match evalArith fuel b with
+    | .ok vs =>
+      match f, vs with
+      | "+", [.int x, .int y] => .ok (.int (x + y))
+      | "-", [.int x, .int y] => .ok (.int (x - y))
+      | "*", [.int x, .int y] => .ok (.int (x * y))
+      | "-", [.int x] => .ok (.int (-x))
+      | "+", [_, _] => .error .unspec
+      | "-", [_, _] => .error .unspec
+      | "*", [_, _] => .error .unspec
+      | "-", [_] => .error .unspec
+      | _, _ => .error (.type "evaluable" (indicator f args.length))
+where
+  evalAll (fuel : Nat) : List Term → R (List Term)
+    | [] => .ok []
+    | a :: as =>
+      match evalArith fuel a with
       | .error e => .error e
-      | .ok (.int y) => .ok (.int (op x y))
-      | .ok _ => .error .unspec
-    | .ok _ => .error .unspec
+      | .ok v =>
+        match evalAll fuel as with
+        | .error e => .error e
+        | .ok vs => .ok (v :: vs)
 
 /-- `Arg is Arg0, must_be(integer, Arg)`. -/
 def evalInt (t : Term) : R Int :=
@@ -487,7 +494,17 @@ def cellTo (from_ : Int) (width : Nat) : ToSpec → Int
   | .rel n => from_ + n
   | .width => from_ + width
 
-/-- `format_cells//1`, threading the position of the last column stop. -/
+/-- the text of the last `~w`/`~q` goal of a cell. -/
+def lastWrite : List Elem → Option (List Char)
+  | [] => none
+  | .goal (.w a) :: es => (lastWrite es).or (some a.w)
+  | .goal (.q a) :: es => (lastWrite es).or (some a.q)
+  | _ :: es => lastWrite es
+
+/-- `format_cells//1`, threading the position of the last column stop.
+    Pinned: the goal that `~|` appends to its cell runs the goals of the cell a second time; all of
+    them are idempotent except `write_term_to_chars/3`, which insists on an unbound third argument
+    (finding C36-3): a `~|` cell with a `~w`/`~q` raises an uninstantiation error. -/
 def renderCells (cfg : Cfg) (prim : FPrim) : List Cell → Int → R (List Char)
   | [], _ => .ok []
   | .newlines k :: cs, _ => do
@@ -498,6 +515,9 @@ def renderCells (cfg : Cfg) (prim : FPrim) : List Cell → Int → R (List Char)
     | .error e => .error e
     | .ok segs =>
       let to := cellTo tab (textWidth segs) spec
+      if cfg.pinned && spec == .width && (lastWrite es).isSome then
+        .error (.uninst (Term.ofChars ((lastWrite es).getD [])))
+      else
       match renderCells cfg prim cs to with
       | .error e => .error e
       | .ok r => .ok (renderCell tab to segs ++ r)
